@@ -164,8 +164,8 @@ CHECKS: dict[str, dict[str, str]] = {
              'hold the finalizer too: the daemon executions of C09 are validated against Spawning.tla (Trace_Spawning: every finalizer write must '
              'be the one the specification makes, invariant FinalizerHeld in every state) and by the release clause of DaemonMonitor.tla; '
              'daemons BESIDE change handlers on one object are part of Handling.tla itself (conf.dh; MC_Handling_mixed_q, witness mixed_w; histories of profile mixed).',
-        note='one object, one operator at a time; handlers are coroutines or (every fifth history) plain functions run in virtual threads, with scripted outcomes; sub-handlers, handler timeouts and '
-             'on.event results are not yet in the model; known findings are excused only through the family predicates of Handling.tla',
+        note='one object, one operator at a time; handlers are coroutines or (every fifth history) plain functions run in virtual threads, with scripted outcomes; handler timeouts and '
+             'on.event results are not in the model (sub-handlers are: conf.subs); known findings are excused only through the family predicates of Handling.tla',
         ref='DESIGN.md 4/C02'),
     'C03': dict(
         technique='explicit TLA+ model of the closed loop of one object (Handling.tla) checked exhaustively with TLC; traces of the real '
@@ -176,8 +176,8 @@ CHECKS: dict[str, dict[str, str]] = {
              'hold the finalizer too: the daemon executions of C09 are validated against Spawning.tla (Trace_Spawning: every finalizer write must '
              'be the one the specification makes, invariant FinalizerHeld in every state) and by the release clause of DaemonMonitor.tla; '
              'daemons BESIDE change handlers on one object are part of Handling.tla itself (conf.dh; MC_Handling_mixed_q, witness mixed_w; histories of profile mixed).',
-        note='one object, one operator at a time; handlers are coroutines or (every fifth history) plain functions run in virtual threads, with scripted outcomes; sub-handlers, handler timeouts and '
-             'on.event results are not yet in the model; known findings are excused only through the family predicates of Handling.tla',
+        note='one object, one operator at a time; handlers are coroutines or (every fifth history) plain functions run in virtual threads, with scripted outcomes; handler timeouts and '
+             'on.event results are not in the model (sub-handlers are: conf.subs); known findings are excused only through the family predicates of Handling.tla',
         ref='DESIGN.md 4/C03'),
     'C06': dict(
         technique='explicit TLA+ model of the closed loop of one object (Handling.tla) checked exhaustively with TLC; traces of the real '
@@ -188,8 +188,8 @@ CHECKS: dict[str, dict[str, str]] = {
              'hold the finalizer too: the daemon executions of C09 are validated against Spawning.tla (Trace_Spawning: every finalizer write must '
              'be the one the specification makes, invariant FinalizerHeld in every state) and by the release clause of DaemonMonitor.tla; '
              'daemons BESIDE change handlers on one object are part of Handling.tla itself (conf.dh; MC_Handling_mixed_q, witness mixed_w; histories of profile mixed).',
-        note='one object, one operator at a time; handlers are coroutines or (every fifth history) plain functions run in virtual threads, with scripted outcomes; sub-handlers, handler timeouts and '
-             'on.event results are not yet in the model; known findings are excused only through the family predicates of Handling.tla',
+        note='one object, one operator at a time; handlers are coroutines or (every fifth history) plain functions run in virtual threads, with scripted outcomes; handler timeouts and '
+             'on.event results are not in the model (sub-handlers are: conf.subs); known findings are excused only through the family predicates of Handling.tla',
         ref='DESIGN.md 4/C06'),
     'C07': dict(
         technique='explicit TLA+ model of the closed loop of one object (Handling.tla) checked exhaustively with TLC; traces of the real '
@@ -200,8 +200,8 @@ CHECKS: dict[str, dict[str, str]] = {
              'hold the finalizer too: the daemon executions of C09 are validated against Spawning.tla (Trace_Spawning: every finalizer write must '
              'be the one the specification makes, invariant FinalizerHeld in every state) and by the release clause of DaemonMonitor.tla; '
              'daemons BESIDE change handlers on one object are part of Handling.tla itself (conf.dh; MC_Handling_mixed_q, witness mixed_w; histories of profile mixed).',
-        note='one object, one operator at a time; handlers are coroutines or (every fifth history) plain functions run in virtual threads, with scripted outcomes; sub-handlers, handler timeouts and '
-             'on.event results are not yet in the model; known findings are excused only through the family predicates of Handling.tla',
+        note='one object, one operator at a time; handlers are coroutines or (every fifth history) plain functions run in virtual threads, with scripted outcomes; handler timeouts and '
+             'on.event results are not in the model (sub-handlers are: conf.subs); known findings are excused only through the family predicates of Handling.tla',
         ref='DESIGN.md 4/C07'),
     'C11': dict(
         technique='explicit TLA+ model of the closed loop of one object (Handling.tla) checked exhaustively with TLC; traces of the real '
@@ -212,8 +212,8 @@ CHECKS: dict[str, dict[str, str]] = {
              'hold the finalizer too: the daemon executions of C09 are validated against Spawning.tla (Trace_Spawning: every finalizer write must '
              'be the one the specification makes, invariant FinalizerHeld in every state) and by the release clause of DaemonMonitor.tla; '
              'daemons BESIDE change handlers on one object are part of Handling.tla itself (conf.dh; MC_Handling_mixed_q, witness mixed_w; histories of profile mixed).',
-        note='one object, one operator at a time; handlers are coroutines or (every fifth history) plain functions run in virtual threads, with scripted outcomes; sub-handlers, handler timeouts and '
-             'on.event results are not yet in the model; known findings are excused only through the family predicates of Handling.tla',
+        note='one object, one operator at a time; handlers are coroutines or (every fifth history) plain functions run in virtual threads, with scripted outcomes; handler timeouts and '
+             'on.event results are not in the model (sub-handlers are: conf.subs); known findings are excused only through the family predicates of Handling.tla',
         ref='DESIGN.md 4/C11'),
     'C14': dict(
         technique='explicit TLA+ model of the closed loop of one object (Handling.tla) checked exhaustively with TLC; traces of the real '
@@ -224,8 +224,8 @@ CHECKS: dict[str, dict[str, str]] = {
              'hold the finalizer too: the daemon executions of C09 are validated against Spawning.tla (Trace_Spawning: every finalizer write must '
              'be the one the specification makes, invariant FinalizerHeld in every state) and by the release clause of DaemonMonitor.tla; '
              'daemons BESIDE change handlers on one object are part of Handling.tla itself (conf.dh; MC_Handling_mixed_q, witness mixed_w; histories of profile mixed).',
-        note='one object, one operator at a time; handlers are coroutines or (every fifth history) plain functions run in virtual threads, with scripted outcomes; sub-handlers, handler timeouts and '
-             'on.event results are not yet in the model; known findings are excused only through the family predicates of Handling.tla',
+        note='one object, one operator at a time; handlers are coroutines or (every fifth history) plain functions run in virtual threads, with scripted outcomes; handler timeouts and '
+             'on.event results are not in the model (sub-handlers are: conf.subs); known findings are excused only through the family predicates of Handling.tla',
         ref='DESIGN.md 4/C14'),
     'C01': dict(
         technique='explicit TLA+ model of the multiplexer (Queueing.tla) checked exhaustively with TLC incl. liveness; traces of the '
